@@ -138,6 +138,31 @@ def main():
     except Exception as e:
         ctx.broke("correspondence", type(e).__name__, traceback.format_exc())
 
+    # (iv-b) corpus of past failures: every input that once exposed a defect or a seeded change (corpus/<Cnn>/*.json,
+    #        replay payloads) is replayed against the current tree; thorough tier (VERIF_CORPUS=1 forces it in quick)
+    cdir = os.path.join(C.VERIF, "corpus", pid)
+    if os.path.isdir(cdir) and (tier == "thorough" or os.environ.get("VERIF_CORPUS") == "1") and not ctx.broken:
+        import contextlib
+        import io
+        t_c = C.Timer()
+        ran = 0
+        for fn in sorted(os.listdir(cdir)):
+            if not fn.endswith(".json") or t_c() > float(os.environ.get("VERIF_CORPUS_BUDGET", "240")):
+                continue
+            try:
+                payload = json.load(open(os.path.join(cdir, fn)))
+                sub = Ctx(pid, tier)
+                buf = io.StringIO()
+                with contextlib.redirect_stdout(buf):
+                    ok = mod.replay(sub, payload)
+                ran += 1
+                if not ok:
+                    ctx.fail("corpus:" + str(payload.get("key", fn)), f"corpus entry {fn} (origin {payload.get('origin', '?')}) "
+                             f"fails again on this tree: {buf.getvalue()[-300:]}", payload.get("case"))
+            except Exception as e:
+                ctx.notes.setdefault("corpus_errors", []).append(f"{fn}: {type(e).__name__}: {str(e)[:120]}")
+        ctx.count("corpus_entries_replayed", ran)
+
     # (v) failing-input search when something is no longer shown
     if ctx.broken and not ctx.failures and hasattr(mod, "search"):
         try:
